@@ -14,6 +14,9 @@ void logon() {
   if (MASTER->query_policy("logon_error")) { MASTER->set_policy("logon_error", 0); vfail("logon", uname); }
 }
 
+// after exec(): this object is the interactive one now
+void take_over() { enable_commands(); add_action("cmd_any", "", 1); }
+
 void net_dead() {
   vlog("\"e\":\"NetDead\",\"u\":" + jq(uname));
   if (MASTER->query_policy("netdead_error")) { MASTER->set_policy("netdead_error", 0); vfail("net_dead", uname); }
